@@ -29,6 +29,10 @@ static int k_gemv(const case_t *c, rng_t *rng, csc_t *G, int gemm)
     static const double sc[] = {0.0, 1.0, -1.0, 0.7, 2.5};
     int ai = (int)cint(c, "alpha", 3), bi = (int)cint(c, "beta", 3);
     elem_t alpha = MKE(sc[ai % 5], (ai % 5 == 3 && IS_COMPLEX) ? 0.3 : 0.0), beta = MKE(sc[bi % 5], (bi % 5 == 3 && IS_COMPLEX) ? -0.4 : 0.0);
+    /* 5, 6: purely imaginary scalars in the complex precisions (a real value elsewhere): every special case of the scalars
+       (zero, one, real, imaginary) is a separate path in hand-written complex kernels */
+    if (ai >= 5) alpha = IS_COMPLEX ? MKE(0, ai == 5 ? 1.0 : -2.5) : MKE(ai == 5 ? 3.0 : -0.25, 0);
+    if (bi >= 5) beta = IS_COMPLEX ? MKE(0, bi == 5 ? 1.0 : -0.5) : MKE(bi == 5 ? 3.0 : -0.25, 0);
     int_t ax = incx < 0 ? -incx : incx, ay = incy < 0 ? -incy : incy;
     if (gemm) { ax = ay = 1; incx = incy = 1; }
     int_t ldb = lenx + 1, ldc = leny + 2;
